@@ -12,12 +12,15 @@ import (
 	"log/slog"
 	"os"
 	"path/filepath"
+	"regexp"
 	"strings"
+	"sync"
 	"testing"
 	"time"
 
 	"github.com/a-h/templ"
 	"github.com/a-h/templ/cmd/templ/generatecmd"
+	"github.com/a-h/templ/cmd/templ/generatecmd/watcher"
 	templruntime "github.com/a-h/templ/runtime"
 	"github.com/a-h/templ/zzverif/kernel"
 	"github.com/a-h/templ/zzverif/shim/simos"
@@ -81,6 +84,41 @@ type world struct {
 	filePath    string
 	fileContent []byte
 	fileMTime   time.Time
+	// through the real watcher loop (coalescing of raw file system events)
+	useLoop bool
+	raw     *fsnotify.Watcher
+	qmu     sync.Mutex
+	queue   []time.Time // arrival times of coalesced events not yet handled
+	cancel  context.CancelFunc
+}
+
+var watchPattern = regexp.MustCompile(`(.+\.go$)|(.+\.templ$)`)
+
+func (w *world) startLoop() {
+	ctx, cancel := context.WithCancel(context.Background())
+	w.cancel = cancel
+	w.raw = &fsnotify.Watcher{Events: make(chan fsnotify.Event), Errors: make(chan error)}
+	out := make(chan fsnotify.Event)
+	rw := watcher.NewRecursiveWatcher(ctx, w.raw, watchPattern, out, make(chan error))
+	go rw.Loop()
+	go func() {
+		for {
+			select {
+			case <-ctx.Done():
+				return
+			case <-out:
+				w.qmu.Lock()
+				w.queue = append(w.queue, time.Now())
+				w.qmu.Unlock()
+			}
+		}
+	}()
+}
+
+func (w *world) queued() int {
+	w.qmu.Lock()
+	defer w.qmu.Unlock()
+	return len(w.queue)
 }
 
 func (w *world) path(v int) string { return filepath.Join(w.fam.Variants[v].Dir, "t.templ") }
@@ -104,6 +142,9 @@ func (w *world) newHandler() {
 // tick makes sure fake time has moved since the last write (two saves never share an mtime).
 func (w *world) tick() {
 	time.Sleep(time.Millisecond)
+	if w.useLoop {
+		w.k.Quiesce() // a coalescing timer may have fired during this millisecond
+	}
 }
 
 func (w *world) writeSource(v int, content string) {
@@ -113,11 +154,27 @@ func (w *world) writeSource(v int, content string) {
 	w.lastEdit = now
 	w.fileVar = v
 	w.pending = true
+	if w.useLoop {
+		// an editor's save shows up as one to three raw Write events
+		n := w.t.Range(1, 3, "raw-events")
+		for i := 0; i < n; i++ {
+			w.raw.Events <- fsnotify.Event{Name: w.path(w.c), Op: fsnotify.Write}
+			w.k.Quiesce()
+		}
+		w.k.Count("raw_fs_events", int64(n))
+	}
 }
 
 // watch hands the real handler an event for the source file.
 func (w *world) watch() (generatecmd.GenerateResult, error) {
 	w.tick()
+	if w.useLoop {
+		w.qmu.Lock()
+		if len(w.queue) > 0 {
+			w.queue = w.queue[1:]
+		}
+		w.qmu.Unlock()
+	}
 	r, err := w.h.HandleEvent(context.Background(), fsnotify.Event{Name: w.path(w.c), Op: fsnotify.Write})
 	w.pending = false
 	if err == nil && w.fileVar >= 0 {
@@ -222,16 +279,30 @@ func (w *world) run() {
 	rc, t := w.rc, w.t
 	epoch0 = time.Now()
 	w.c = t.Choose(len(w.fam.Variants), "initial-variant")
+	w.useLoop = t.Bool("through-watcher-loop")
+	if w.useLoop {
+		w.startLoop()
+		w.k.Quiesce()
+		w.k.Count("probe_runs_through_watcher_loop", 1)
+		defer func() {
+			// let every armed coalescing timer fire and be drained, then stop the loop
+			time.Sleep(250 * time.Millisecond)
+			w.k.Quiesce()
+			w.cancel()
+			w.k.Quiesce()
+		}()
+	}
 	w.newHandler()
 	w.fileVar = w.c
 	w.rebuild()
 	time.Sleep(ttl + time.Millisecond)
+	w.k.Quiesce()
 	w.check("after initial build")
 	maxActions := t.Range(3, rc.Param("max_actions", 40), "max-actions")
 	wEdit, wWatch, wAdv, wRender, wRestartApp, wRestartW, wGarbage := t.Range(1, 6, "w-edit"), t.Range(1, 6, "w-watch"), t.Range(1, 4, "w-adv"), t.Range(1, 6, "w-render"), t.Range(0, 2, "w-rapp"), t.Range(0, 2, "w-rw"), t.Range(0, 1, "w-garbage")
 	for a := 0; a < maxActions && !rc.Failed(); a++ {
 		ws := []int{wEdit, 0, wAdv, wRender, wRestartApp, wRestartW, wGarbage}
-		if w.pending {
+		if (w.pending && !w.useLoop) || (w.useLoop && w.queued() > 0) {
 			ws[1] = wWatch
 		}
 		switch t.Pick(ws, "action") {
@@ -257,6 +328,7 @@ func (w *world) run() {
 			d := ds[t.Choose(len(ds), "advance")]
 			w.note("advance %v", d)
 			time.Sleep(d)
+			w.k.Quiesce()
 		case 3:
 			if w.pending {
 				// the handler has not seen the latest edit yet: nothing to assert about it
@@ -291,14 +363,27 @@ func (w *world) run() {
 		j := t.Choose(len(w.fam.Variants), "final-edit")
 		w.writeSource(j, w.fam.Variants[j].Source)
 	}
-	if w.pending {
+	if w.useLoop && w.pending {
+		// liveness: once saves stop, the coalesced event for the last save reaches the handler
+		time.Sleep(150 * time.Millisecond)
+		w.k.Quiesce()
+		if w.queued() == 0 {
+			rc.Fail("C16/edit-never-reaches-handler", "%s: 150 ms after the last save the watcher loop has delivered no event for it\n trace: %s", w.fam.Name, strings.Join(w.trace, "\n  "))
+			return
+		}
+	}
+	for w.pending || (w.useLoop && w.queued() > 0) {
 		r, err := w.watch()
 		w.note("final watch: GoUpdated=%v TextUpdated=%v err=%v", r.GoUpdated, r.TextUpdated, err != nil)
 		if err == nil && r.GoUpdated {
 			w.rebuild()
 		}
+		if !w.useLoop {
+			break
+		}
 	}
 	time.Sleep(ttl + time.Millisecond)
+	w.k.Quiesce()
 	w.check("final")
 }
 
